@@ -209,10 +209,10 @@ func (o *OracleC09) AtEnd(s *Sim) {
 						willing++
 					}
 				}
-				// (a restarted validator that only got its own earlier pre-commit back, holds no
-				// proposal and therefore ignores the recovery messages that carry it - observation
-				// O7 - cannot contribute a commit and does not count)
-				if m.d.ViewNumber == maxView && (!isLocked || (lv == maxView && (m.d.CommitSent() || m.d.RequestSentOrReceived()))) {
+				// (a restarted validator that only got its own earlier (pre)commit back, holds no
+				// proposal and ignores the recovery messages that carry it - observation O7 - can
+				// neither commit nor supply its preparation to the others, and does not count)
+				if m.d.ViewNumber == maxView && (!isLocked || (lv == maxView && m.d.RequestSentOrReceived())) {
 					atTop++
 					if m.d.IsPrimary() {
 						primAtTop = true
